@@ -31,6 +31,9 @@ TASKS = [
     ("external", {"a.lp": "p(X) :- q(X), X > n.\n", "b.lp": "p(X) :- q(X), X >= n + 1.\n", "u.ug": "input: n -> integer.\ninput: q/1.\noutput: p/1.\n"}, []),
     ("external", {"s.spec": "spec: forall X (p(X) <-> exists N$i (X = N$i and q(X))).\n", "b.lp": "p(X) :- q(X), X = X + 0.\n",
                   "u.ug": "input: q/1.\noutput: p/1.\n"}, []),
+    # a proof outline: more problems per direction; two lemmas carry the same user-chosen name
+    ("external", {"s.spec": "spec: forall X (p(X) <-> q(X)).\n", "b.lp": "p(X) :- q(X).\n", "u.ug": "input: q/1.\noutput: p/1.\n",
+                  "o.po": "lemma(forward)[aux]: forall X (q(X) -> p(X)).\nlemma(forward)[aux]: forall X (p(X) -> q(X)).\nlemma(backward)[aux]: forall X (p(X) -> q(X)).\n"}, []),
 ]
 
 
@@ -45,6 +48,11 @@ def behaviours():
         out.append(("T", w, {"stdout_b64": b64(f"% SZS status {w} for prob\n".encode())}))
         out.append(("T", w, {"stdout_b64": b64(f"% Refutation found.\n% SZS status {w} for \n% SZS output start\n".encode()),
                              "stderr_b64": b64(b"warning: x\n")}))
+        # a proof listing far beyond the capacity of a pipe (64 KiB): the output must be drained while the prover runs
+        big = f"% SZS status {w} for prob\n% SZS output start Proof for prob\n".encode() + b"".join(
+            b"%d. p(X%d) | ~q(X%d) [resolution %d,%d]\n" % (i, i, i, i - 1, i - 2) for i in range(6000)) + b"% SZS output end Proof for prob\n"
+        out.append(("T", w, {"stdout_b64": b64(big)}))
+    out.append(("S", "GaveUp", {"stdout_b64": b64(b"% SZS status GaveUp for prob\n"), "stderr_b64": b64(b"% trace line of the saturation loop\n" * 5000)}))
     for w in ["CounterSatisfiable", "ContradictoryAxioms", "Timeout", "MemoryOut", "GaveUp", "Error"]:
         out.append(("S", w, {"stdout_b64": b64(f"% SZS status {w} for prob\n".encode())}))
     # a first status line decides; a later Theorem line must not turn it into a success
@@ -368,6 +376,12 @@ def run_C10(ctx):
             late = names[-1] if k % 2 == 0 else names[0]
             conc[late] = {"o": "CounterSatisfiable", "stdout_b64": b64(b"% SZS status CounterSatisfiable for x\n"), "delay_ms": 5200}
             futs.append(ex.submit(one_run, ctx, f"slow{k}", t, {"exits": [], "slow": late}, conc, n, "ok", 1))
+        # every prover prints a long proof (more than a pipe holds) before it exits
+        bigent = [b for b in behs if b[0] == "T" and len(b[2]["stdout_b64"]) > 100000][0][2]
+        for k, n in enumerate([1, 3]):
+            t = [x for x in tasks if len(x["shas"]) >= 2][k % 2]
+            conc = {nm: dict(bigent, o="Theorem", delay_ms=20 * i) for i, nm in enumerate(order[t["k"]])}
+            futs.append(ex.submit(one_run, ctx, f"big{k}", t, {"exits": [], "big_output": True}, conc, n, "ok"))
         # faults: the executable is missing / not executable, for both modes
         for k, (mode, n) in enumerate([("missing", 1), ("missing", 3), ("noexec", 1), ("noexec", 2)]):
             t = tasks[k % len(tasks)]
